@@ -9,12 +9,20 @@ CHECK = {
              "lattice_pairs_enumerated must read 46656). lattice-progs: a case = one seeded eager CSG program "
              "(Boolean/BatchBoolean, <=6 Booleans) over boxes on [0,N]^3, N<=6, operands reused (whole copies) and "
              "endpoints biased to coincide; a result becomes an operand only if it passed the oracle. lattice-touch: "
-             "a case = 24 programs X op (P+Q) / (P+Q) op X with P,Q touching along an edge or at a vertex. general: a "
+             "cases 0..5 enumerate, for six fixed edge-touching (P,Q), X -/^ (P+Q) and X -/^ (Q+P) over every box X that "
+             "touches one of them along an edge and shares volume with the other; every other case = 24 seeded programs "
+             "X op (P+Q) / (P+Q) op X with P,Q touching along an edge or at a vertex. A wrong lattice result is shrunk "
+             "(sub-expressions replaced by a child / by the box they denote, BatchBoolean unrolled, boxes shrunk, "
+             "coordinates rank-compressed) and keyed by operation + class of the operand meshes of the shrunk failing "
+             "step (box, solid, solid[redundant-verts], solid[nonmanifold-contact], solid[double-wall], flat-sheet) + "
+             "set relation of the operand solids. general: a "
              "case = one pair of eps-valid-by-construction operands (Cube/Tetrahedron/Sphere/Cylinder/Hull/Extrude of "
              "a star-shaped polygon/Revolve, each under its own random rotation, optional scale/mirror/shear) => "
              "A+B, A-B, A^B, (reversed +,^ in half the cases), Split, SplitByPlane, TrimByPlane, with probability "
              "0.35 a BatchBoolean of 3..8 such operands and with probability 0.5 a chain of 1..2 further Booleans on a "
-             "result that passed at all its samples. distinct_nontrivial = distinct signatures among cases whose "
+             "result that passed at all its samples (the other operand of a chained step is a fresh generic operand, or "
+             "with probability 0.3 one of the two original operands again = coincident by ancestry, keyed "
+             "`chained-with-ancestor`). distinct_nontrivial = distinct signatures among cases whose "
              "result was non-empty and whose oracle decided at least one point: lattice pairs (op, contact type of the "
              "pair, triangle bucket); lattice programs (N, op/operand-kind sequence); touch (op, side, contact types); "
              "general (operand kinds, op kind, reversed flag / batch size / chain parent kind)."),
@@ -42,10 +50,12 @@ CHECK = {
     "assumptions": [
         "the solid-angle winding-number classifier and brute-force point-triangle distance in harness/common/oracles.h "
         "(long double) are correct; samples whose winding is not within 0.01 of an integer are skipped",
-        "a point counts as inside a mesh when its rounded winding number is > 0",
+        "an operand point counts as inside when its rounded winding number is > 0; a RESULT must have winding exactly 1 "
+        "where the set formula says inside and exactly 0 elsewhere (a result is a solid)",
         "guard band tau = result GetTolerance() (max over the results sharing a sample set) + 8 ulp x largest |coordinate|; "
         "every sample within tau of ANY input surface (or of the cutting plane) is skipped and counted",
-        "lattice exactness: all triangles in integer axis-aligned planes + winding at every voxel centre and one "
+        "lattice exactness: all triangles in integer axis-aligned planes (coordinates may be off their plane by at most the "
+        "result's GetTolerance(), counted) + winding at every voxel centre and one "
         "quarter-offset point per voxel (with a one-voxel shell) + |Volume() - voxel count| <= 1e-9; vertices at "
         "non-integer positions inside a lattice plane do not change the solid and are only counted",
         "operands are eps-valid by construction (primitives, hulls, extrusions of star-shaped polygons, revolutions of "
